@@ -1,6 +1,7 @@
 package harness
 
 import (
+	"bytes"
 	"context"
 	"errors"
 	"testing"
@@ -231,10 +232,7 @@ func propJanitor(c *Case) {
 		massCase := stats == nil && c.Weighted("mass-case", 7, 1) == 1 // (a small count limit must not be exceeded at a cycle)
 
 		for i := 0; i < nops; i++ {
-			wExpireAll := 0
-			if cfgTTL != cache.UnlimitedTTL {
-				wExpireAll = 1 // on a scan-exempt Unlimited cache the effect of ExpireAll on cleanup is not specified
-			}
+			wExpireAll := 1 // (also on UnlimitedTTL caches: an expired entry is an expired entry)
 
 			wCycle := 0
 			if hook {
@@ -246,7 +244,43 @@ func propJanitor(c *Case) {
 				wMass = 3
 			}
 
-			switch c.Weighted("op", 5, 5, 1, 1, wExpireAll, wCycle, wMass) {
+			switch c.Weighted("op", 5, 5, 1, 1, wExpireAll, wCycle, wMass, 1) {
+			case 7:
+				// entries that arrive with their expiry through Restore of another instance's dump
+				sync()
+
+				src := newCaseBackend(c, kind, cache.Config{TimeToLive: 1000 * time.Hour, ExpirationJitter: -1, DeleteExpiredJobInterval: 2 * farFuture, DeleteExpiredAfter: 2 * farFuture, ItemsCountReportInterval: farFuture})
+				nr := c.Int("restored", 1, 3)
+				now := time.Now()
+
+				type rest struct {
+					k   []byte
+					v   string
+					ttl time.Duration
+				}
+
+				var rs []rest
+
+				for j := 0; j < nr; j++ {
+					r := rest{k: baseKeys[c.Pick("key", len(baseKeys))], ttl: ttlMenu[c.Pick("ttl", len(ttlMenu))]}
+					r.v = d.token(r.k)
+					_ = src.Write(ttlCtx(r.ttl), r.k, r.v)
+					rs = append(rs, r)
+				}
+
+				var buf bytes.Buffer
+
+				_, derr := src.Dump(&buf)
+				_, rerr := be.Restore(&buf)
+				c.Assert(derr == nil && rerr == nil, "dump-restore-error", "Dump/Restore = %v / %v", derr, rerr)
+
+				for _, r := range rs {
+					e := d.ref.write(now, r.k, r.v, r.ttl)
+					e.e, e.lo, e.hi, e.settled = now.Add(r.ttl).UnixNano(), 0, 0, true // the source's expiry, no jitter there
+					writtenAt[string(r.k)] = now.UnixNano()
+				}
+
+				c.Class("entries-arrive-through-Restore")
 			case 6:
 				// hundreds of entries in ONE shard (next to key "a"), born long-expired, recently expired or fresh
 				sync()
